@@ -227,21 +227,7 @@ static int json_patch_apply_move_copy(struct json_object **res,
 
 	from_s = json_object_get_string(jfrom);
 
-	from_s_len = strlen(from_s);
-	if (strncmp(from_s, path, from_s_len) == 0) {
-		/**
-		 * If lengths match, it's a noop, if they don't,
-		 * then we're trying to move a parent under a child
-		 * which is not allowed as per RFC 6902 section 4.4
-		 *   The "from" location MUST NOT be a proper prefix of the "path"
-		 *   location; i.e., a location cannot be moved into one of its children.
-		 */
-		if (from_s_len == strlen(path))
-			return 0;
-		_set_err(EINVAL, "Invalid attempt to move parent under a child");
-		return -1;
-	}
-
+	/* The "from" location MUST exist, whatever "path" is */
 	rc = json_pointer_get_internal(*res, from_s, &from);
 	if (rc)
 	{
@@ -249,8 +235,29 @@ static int json_patch_apply_move_copy(struct json_object **res,
 		return rc;
 	}
 
-	// Note: it's impossible for json_pointer to find the root obj, due
-	// to the path check above, so from.parent is guaranteed non-NULL
+	from_s_len = strlen(from_s);
+	if (move) {
+		/**
+		 * If the locations are the same, it's a noop, if "from" is
+		 * followed by further reference tokens in "path" (or is the
+		 * whole document), then we're trying to move a parent under
+		 * a child which is not allowed as per RFC 6902 section 4.4
+		 *   The "from" location MUST NOT be a proper prefix of the "path"
+		 *   location; i.e., a location cannot be moved into one of its children.
+		 * (A sibling whose name merely starts with the same characters,
+		 * e.g. /a and /abc, is not a child; and "copy" has no such rule.)
+		 */
+		if (strcmp(from_s, path) == 0)
+			return 0;
+		if (from.parent == NULL ||
+		    (strncmp(from_s, path, from_s_len) == 0 && path[from_s_len] == '/')) {
+			_set_err(EINVAL, "Invalid attempt to move parent under a child");
+			return -1;
+		}
+	}
+
+	// Note: a move can't have found the root obj, due to the path check
+	// above, so from.parent is guaranteed non-NULL where it is removed
 	if (!move) {
 		/* a copy is a new, independent value, not a second reference */
 		value = NULL;
